@@ -4,14 +4,39 @@ PROPERTIES = {
     "C06": dict(
         modules=["specifiers"],
         level="proof",
-        claim="specifier resolution: order-independent postcondition (winner = unique minimum priority number, at most one "
-        "modifying specifier, class default otherwise, SpecifierError iff tie / final property / cycle / missing dependency, "
-        "every specifier evaluated once and only after its dependencies are final) proved for every permutation of the input "
-        "list on bounded worlds with symbolic priorities; topological order of the nested dfs; Specifier / ModifyingSpecifier / "
-        "PropertyDefault constructors and default merging; every built-in specifier constructor agrees with the entry parsed "
-        "from docs/reference/specifiers.rst",
-        note="bounded in the number of specifiers/properties (stated per contract), exact in the priorities; values are identity tokens",
-        assumptions=[],
-        not_reached=["2-D mode class swapping (C14)"],
+        claim="specifier resolution: an ORDER-INDEPENDENT postcondition taken from the property statement and the reference "
+        "(winner = unique minimum priority number, altered by the modifying specifier iff it does not win and may modify, class "
+        "default otherwise; SpecifierError iff tie among non-modifying specifiers / final property specified / cyclic dependencies / "
+        "dependency without provider; every specifier evaluated at most once and only when its dependencies already have their final "
+        "value) is checked on the real Constructible._resolveSpecifiers for EVERY permutation of the input list on bounded worlds with "
+        "symbolic integer priorities, plus a relational instance running two orders in one path; topological-order contract of the "
+        "nested dfs for arbitrary consistent initial colourings; Specifier / ModifyingSpecifier constructors, PropertyDefault.resolveFor "
+        "and the default merging of Constructible.__init_subclass__ (inherited / additive / dynamic / final); every built-in specifier "
+        "constructor of veneer.py, per kind of argument, against the entry parsed mechanically from docs/reference/specifiers.rst at "
+        "registration time (properties, priorities, dependencies, modifies)",
+        note="bounded in the number of specifiers/properties (stated per contract), exact in the priorities; property values are identity "
+        "tokens (their geometric meaning is C07); on the unchanged tree two obligations fail and replay: tie detection depends on the "
+        "order (F6) and a modifying specifier may specify a final property",
+        assumptions=[
+            "at most one modifying specifier per object (the reference: `on` is the only one; the same specifier twice is rejected by name)",
+            "reference-table contracts: coercions (toVector/toType/...), ego, RelativeTo/OffsetAlong, Region.uniformPointIn, Orientation.fromEuler "
+            "and all operations on abstract geometric argument values are trusted total stubs; isA/canCoerce/underlyingType decide by the declared "
+            "kind of the abstract argument using the real class hierarchy",
+            "Constructible.__init_subclass__: classes are heap models (issubclass / super(cls, cls) / cls._resolveSpecifiers(()) for type inference of "
+            "dynamic properties are modelled in the contract)",
+            "library models: collections.Counter / defaultdict, types.SimpleNamespace, object.__setattr__ (pyvc/models_spec.py)",
+        ],
+        bounded=[
+            "_resolveSpecifiers priority worlds: 3 non-modifying specifiers | 2 + one modifying | 1 + one modifying with a final property; properties p, q (+ defaults p, q, d, final f); all permutations",
+            "_resolveSpecifiers dependency worlds: 3 non-modifying + 1 modifying specifier, 4 properties + one without provider, every subset of 7 candidate dependency edges, all 24 permutations",
+            "dfs: 4 specifiers, every subset of 7 candidate dependencies, optional modified property, three families of initial colourings",
+            "Specifier/ModifyingSpecifier.__init__: 2 properties, 3 forms of value, dependency subsets; resolveFor: 0-2 overridden defaults; __init_subclass__: 3-level hierarchy + mixin",
+        ],
+        not_reached=[
+            "2-D mode class swapping and OrientedPoint2D._prepareSpecifiers (With(heading) -> Facing), covered by C14's global-state contracts",
+            "unbounded (symbolic-length) version of the phase-1 loop with a loop invariant (Appendix B sketch): not done; the bounded worlds are exhaustive in priorities and orders only up to 3 non-modifying specifiers",
+            "more than one modifying specifier (not expressible with built-in specifiers); note: 'modified twice' would raise NameError (undefined `name` in the message), observed on the real code",
+            "internal properties (leading underscore: _observingEntity, _nonObservingEntity) are not part of the reference and are excluded from the table comparison",
+        ],
     ),
 }
